@@ -116,6 +116,7 @@ func cmdDebug(args []string) {
 				f := o.Failures[0]
 				path, _ := writeQueryFile("/verif/out/debug", o.Name, u.decls, f.Asserts, f.Values)
 				fmt.Println("      dumped", path)
+				fmt.Println("      trace:", strings.Join(f.Trace, " "))
 			}
 		}
 		for _, e := range u.errs {
